@@ -72,3 +72,53 @@ pub fn run(rng: &mut Rng, count: u64, emit: Emit) {
         }
     }
 }
+
+/// S-DISASM: all first-two-byte combinations, a few immediates each, through the real disassembler
+pub fn disasm(rng: &mut Rng, count: u64, emit: Emit) {
+    // count = number of immediates per (b0, b1)
+    for b0 in 0u128..256 {
+        for b1 in 0u128..256 {
+            for k in 0..count {
+                let imm: u128 = match k { 0 => 0, 1 => 1, 2 => 1u128 << 63, 3 => (1u128 << 64) - 1, _ => rng.next() as u128 };
+                // jXX/call take the immediate from byte 1 on; the others from byte 2 on: fill both views
+                let value = b0 | (b1 << 8) | (imm << 16);
+                let value = value & ((1u128 << 80) - 1);
+                let (n, text) = hclrs::verif_hooks::disassemble_to_string(value);
+                emit(format!("(disasm {})", value), format!("{}|{}", n, text));
+            }
+        }
+    }
+}
+
+/// the `pc = ...; loaded [...]` line of real runs
+pub fn trace(rng: &mut Rng, count: u64, emit: Emit) {
+    use std::fmt::Write;
+    for _ in 0..count {
+        let pc: u64 = match rng.below(4) { 0 => rng.below(64), 1 => u64::MAX - rng.below(12), _ => rng.next() };
+        let mut mem: Vec<(u64, u8)> = Vec::new();
+        for i in 0..10u64 {
+            if rng.chance(9, 10) {
+                let b = if i == 0 { ((rng.below(13) << 4) | rng.below(8)) as u8 } else { rng.below(256) as u8 };
+                mem.push((pc.wrapping_add(i), b));
+            }
+        }
+        let text = format!("pc = 0x{:x}; Stat = STAT_HLT;\n", pc);
+        let contents = hclrs::FileContents::new_from_data(hclrs::verif_hooks::y86_preamble(), &text, "t.hcl");
+        let line = match hclrs::parse_y86_hcl(&contents) {
+            Err(_) => String::from("rejected"),
+            Ok(program) => {
+                let mut rp = hclrs::RunningProgram::new_y86(program);
+                rp.verif_set_memory(&mem);
+                let mut out: Vec<u8> = Vec::new();
+                match rp.step_with_output(&mut out) {
+                    Ok(()) => String::from_utf8_lossy(&out).lines().find(|l| l.starts_with("pc = ")).unwrap_or("no-line").to_string(),
+                    Err(_) => String::from("step-error"),
+                }
+            }
+        };
+        let mut req = format!("(trace {} (mem", pc);
+        for (a, b) in &mem { write!(req, " ({} {})", a, b).unwrap(); }
+        req.push_str("))");
+        emit(req, line);
+    }
+}
